@@ -354,3 +354,255 @@ package decimal
 //@ func div10VWW(z, x []Word, y, xn Word) (r Word)
 //@   same div10VWW_g
 //@   status assumed assembly
+
+// ---------------------------------------------------------------------------
+// D: dec (dec.go)
+
+//@ lemma V_zero(m array, lo, hi)
+//@   requires lo <= hi
+//@   requires forall k in lo..hi :: m[k] == 0
+//@   ensures V(m, lo, hi) == 0
+//@   induction hi from lo
+//@   use Vdef(m, lo, hi-1)
+
+//@ lemma V_nonneg(m array, lo, hi)
+//@   requires lo <= hi
+//@   requires forall k in lo..hi :: 0 <= m[k]
+//@   ensures 0 <= V(m, lo, hi)
+//@   induction hi from lo
+//@   use Vdef(m, lo, hi-1)
+//@   use Pdef(hi-1-lo)
+//@   use mul_mono(0, m[hi-1], P(hi-1-lo))
+
+//@ lemma V_pos(m array, lo, hi, j)
+//@   requires lo <= j && j < hi
+//@   requires forall k in lo..hi :: 0 <= m[k]
+//@   requires m[j] > 0
+//@   ensures V(m, lo, hi) > 0
+//@   induction hi from j+1
+//@   use Vdef(m, lo, hi-1)
+//@   use Vdef(m, lo, j)
+//@   use Pdef(hi-1-lo)
+//@   use Pdef(j-lo)
+//@   use V_nonneg(m, lo, j)
+//@   use mul_mono(1, m[j], P(j-lo))
+//@   use mul_mono(0, m[hi-1], P(hi-1-lo))
+
+//@ func (z dec) clear()
+//@   modifies mem(z)
+//@   ensures[zero] forall k in 0..len(z) :: z[k] == 0
+//@   ensures[value] V(z) == 0
+//@   loop 1 invariant[range] -1 <= rangeindex && rangeindex < len(z) && (len(z) == 0 ==> rangeindex == -1)
+//@   loop 1 invariant[zero] forall k in 0..rangeindex+1 :: z[k] == 0
+//@   loop 1 modifies mem(z)
+//@   hint[exit] V_zero(z, 0, len(z))
+
+//@ func (z dec) norm() dec
+//@   pure
+//@   ensures[slice] result.arr == z.arr && result.off == z.off && cap(result) == cap(z) && len(result) <= len(z)
+//@   ensures[top,C08] len(result) == 0 || z[len(result)-1] != 0
+//@   ensures[zeros] forall k in len(result)..len(z) :: z[k] == 0
+//@   ensures[value] V(result) == V(z)
+//@   loop 1 invariant[range] 0 <= i && i <= len(z)
+//@   loop 1 invariant[zeros] forall k in i..len(z) :: z[k] == 0
+//@   hint[ret] V_split(z, 0, i, len(z))
+//@   hint[ret] V_zero(z, i, len(z))
+
+//@ func (z dec) make(n int) dec
+//@   requires[size] 0 <= n && n <= 4398046511104
+//@   ensures[len] len(result) == n
+//@   ensures[reuse] n <= cap(z) ==> result.arr == z.arr && result.off == z.off && cap(result) == cap(z)
+//@   ensures[fresh] n > cap(z) ==> fresh(result) && result.off == 0 && (forall k in 0..n :: result[k] == 0)
+
+//@ func (z dec) set(x dec) dec
+//@   requires[size] len(x) <= 1099511627776
+//@   modifies memcap(z)
+//@   ensures[len] len(result) == len(x)
+//@   ensures[where] (len(x) <= cap(z) ==> result.arr == z.arr && result.off == z.off && cap(result) == cap(z)) && (len(x) > cap(z) ==> fresh(result))
+//@   ensures[words] forall k in 0..len(x) :: result[k] == old(x[k])
+//@   ensures[value] V(result) == old(V(x))
+
+//@ func (z dec) setWord(x Word) dec
+//@   modifies memcap(z)
+//@   ensures[len] (x == 0 ==> len(result) == 0) && (x != 0 ==> len(result) == 1 && result[0] == x)
+//@   ensures[where] (cap(z) >= 1 || x == 0 ==> result.arr == z.arr && result.off == z.off && cap(result) == cap(z)) && (cap(z) < 1 && x != 0 ==> fresh(result))
+//@   ensures[value] V(result) == x
+
+// dst_ok(z, x): the destination buffer z (up to its capacity) is either based at
+// the same place as operand x, or does not overlap x at all.
+//@ define dst_ok(z, x) = samebase(z, x) || x.arr != z.arr || x.off + len(x) <= z.off || z.off + cap(z) <= x.off || cap(z) == 0
+//@ define natnorm(x) = len(x) == 0 || x[len(x)-1] != 0
+//@ define result_in(r, z) = (r.arr == z.arr && r.off == z.off && cap(r) == cap(z)) || fresh(r)
+//@ define small(x) = len(x) <= 1099511627775
+
+//@ lemma P_mono(a, b)
+//@   requires 0 <= a && a <= b
+//@   ensures P(a) <= P(b) && 1 <= P(a)
+//@   induction b from a
+//@   use Pdef(b-1)
+//@   use Pdef(a)
+
+//@ lemma V_top(m array, lo, hi)
+//@   requires lo < hi
+//@   requires forall k in lo..hi :: 0 <= m[k]
+//@   ensures V(m, lo, hi) >= m[hi-1]*P(hi-1-lo)
+//@   use Vdef(m, lo, hi-1)
+//@   use V_nonneg(m, lo, hi-1)
+
+//@ func (z dec) add(x, y dec) dec
+//@   requires[words]   wordsok(x) && wordsok(y) && small(x) && small(y) && natnorm(x) && natnorm(y)
+//@   requires[overlap] dst_ok(z, x) && dst_ok(z, y)
+//@   modifies memcap(z)
+//@   ensures[where]    result_in(result, z)
+//@   ensures[words,C08] wordsok(result) && natnorm(result)
+//@   ensures[value,C01] V(result) == old(V(x)) + old(V(y))
+//@   ensures[len]      len(result) <= max(len(x), len(y)) + 1
+//@   hint[ret] m >= n ==> Vdef(z, 0, m)
+//@   hint[ret] m >= n ==> V_split(z, 0, n, m)
+//@   hint[ret] m >= n ==> V_split(old(x), 0, n, m)
+//@   hint[ret] m >= n ==> P_add(n, m-n)
+
+//@ lemma V_ge_P(m array, lo, hi)
+//@   requires lo < hi
+//@   requires forall k in lo..hi :: 0 <= m[k]
+//@   requires m[hi-1] >= 1
+//@   ensures V(m, lo, hi) >= P(hi-1-lo)
+//@   use V_top(m, lo, hi)
+//@   use mul_mono(1, m[hi-1], P(hi-1-lo))
+//@   use Pdef(hi-1-lo)
+
+//@ func (z dec) sub(x, y dec) dec
+//@   requires[words]   wordsok(x) && wordsok(y) && small(x) && small(y) && natnorm(x) && natnorm(y)
+//@   requires[nounderflow] V(x) >= V(y)
+//@   requires[overlap] dst_ok(z, x) && dst_ok(z, y)
+//@   modifies memcap(z)
+//@   ensures[where]    result_in(result, z)
+//@   ensures[words,C08] wordsok(result) && natnorm(result)
+//@   ensures[value,C01] V(result) + old(V(y)) == old(V(x))
+//@   ensures[len]      len(result) <= len(x)
+//@   hint[entry] len(x) < len(y) ==> V_bounds(x, 0, len(x))
+//@   hint[entry] len(x) < len(y) ==> V_ge_P(y, 0, len(y))
+//@   hint[entry] len(x) < len(y) ==> P_mono(len(x), len(y)-1)
+//@   hint[after:sub10VV#1] m == n ==> V_bounds(z, 0, m)
+//@   hint[after:sub10VW#1] V_bounds(z, 0, m)
+//@   hint[after:sub10VW#1] V_split(z, 0, n, m)
+//@   hint[after:sub10VW#1] V_split(old(x), 0, n, m)
+//@   hint[after:sub10VW#1] P_add(n, m-n)
+
+//@ func (x dec) cmp(y dec) (r int)
+//@   pure
+//@   requires[words] wordsok(x) && wordsok(y) && natnorm(x) && natnorm(y)
+//@   ensures[range] -1 <= r && r <= 1
+//@   ensures[value,C06] (r < 0 <==> V(x) < V(y)) && (r > 0 <==> V(x) > V(y))
+//@   loop 1 invariant[range] 0 <= i && i < m
+//@   loop 1 invariant[eq] forall k in i+1..m :: x[k] == y[k]
+//@   hint[ret] m < n ==> V_bounds(x, 0, m)
+//@   hint[ret] m < n ==> V_ge_P(y, 0, n)
+//@   hint[ret] m < n ==> P_mono(m, n-1)
+//@   hint[ret] n < m ==> V_bounds(y, 0, n)
+//@   hint[ret] n < m ==> V_ge_P(x, 0, m)
+//@   hint[ret] n < m ==> P_mono(n, m-1)
+//@   hint[ret] V_split(x, 0, i+1, m)
+//@   hint[ret] V_split(y, 0, i+1, m)
+//@   hint[ret] V_eq(x, y, i+1, m)
+//@   hint[ret] Vdef(x, 0, i)
+//@   hint[ret] Vdef(y, 0, i)
+//@   hint[ret] V_bounds(x, 0, i)
+//@   hint[ret] V_bounds(y, 0, i)
+//@   hint[ret] x[i] < y[i] ==> mul_mono(x[i]+1, y[i], P(i))
+//@   hint[ret] y[i] < x[i] ==> mul_mono(y[i]+1, x[i], P(i))
+
+//@ func same(x, y []Word) bool
+//@   pure
+//@   ensures[def] result <==> gosame(x, y)
+//@ func alias(x, y []Word) bool
+//@   pure
+//@   ensures[def] result <==> goalias(x, y)
+
+//@ lemma p10def(k)
+//@   requires k >= 0
+//@   ensures p10(k+1) == 10*p10(k) && p10(k) >= 1
+//@   axiom
+
+//@ lemma p10_P(a)
+//@   requires a >= 0
+//@   ensures p10(19*a) == P(a)
+//@   induction a from 0
+//@   use Pdef(a-1)
+//@   use p10def(19*a-19)
+//@   use p10def(19*a-18)
+//@   use p10def(19*a-17)
+//@   use p10def(19*a-16)
+//@   use p10def(19*a-15)
+//@   use p10def(19*a-14)
+//@   use p10def(19*a-13)
+//@   use p10def(19*a-12)
+//@   use p10def(19*a-11)
+//@   use p10def(19*a-10)
+//@   use p10def(19*a-9)
+//@   use p10def(19*a-8)
+//@   use p10def(19*a-7)
+//@   use p10def(19*a-6)
+//@   use p10def(19*a-5)
+//@   use p10def(19*a-4)
+//@   use p10def(19*a-3)
+//@   use p10def(19*a-2)
+//@   use p10def(19*a-1)
+
+//@ lemma p10_add(a, b)
+//@   requires a >= 0 && b >= 0
+//@   ensures p10(a+b) == p10(a)*p10(b)
+//@   induction b from 0
+//@   use p10def(a+b-1)
+//@   use p10def(b-1)
+
+//@ lemma p10_split(a, b)
+//@   requires a >= 0 && b >= 0
+//@   ensures p10(19*a + b) == P(a)*p10(b)
+//@   use p10_add(19*a, b)
+//@   use p10_P(a)
+
+//@ func (z dec) shl(x dec, s uint) dec
+//@   requires[words]   wordsok(x) && small(x) && s <= 1099511627775 && natnorm(x)
+//@   requires[overlap] dst_ok(z, x)
+//@   split s % 19 in 0..18
+//@   modifies memcap(z)
+//@   ensures[where]    result_in(result, z)
+//@   ensures[words,C08] wordsok(result) && natnorm(result)
+//@   ensures[value,C01] V(result) == old(V(x))*p10(s)
+//@   ensures[len]      len(result) <= len(x) + s/19 + 1
+//@   hint[ret] V_split(z, 0, n-m, n+1)
+//@   hint[ret] Vdef(z, n-m, n)
+//@   hint[ret] p10_split(s/19, s%19)
+//@   hint[ret] assert(V(z, n-m, n+1) == old(V(x))*p10(s%19))
+
+//@ func (z dec) mulAddWW(x dec, y, r Word) dec
+//@   requires[words]   wordsok(x) && small(x) && y < B && r < B && natnorm(x)
+//@   requires[overlap] dst_ok(z, x)
+//@   modifies memcap(z)
+//@   ensures[where]    result_in(result, z)
+//@   ensures[words,C08] wordsok(result) && natnorm(result)
+//@   ensures[value,C06] V(result) == old(V(x))*y + r
+//@   hint[ret] Vdef(z, 0, m)
+
+//@ func (z dec) divW(x dec, y Word) (q dec, r Word)
+//@   requires[words]   wordsok(x) && small(x) && natnorm(x) && y != 0 && y <= B
+//@   requires[overlap] dst_ok(z, x)
+//@   modifies memcap(z)
+//@   ensures[where]    result_in(q, z)
+//@   ensures[words,C08] wordsok(q) && natnorm(q)
+//@   ensures[value,C06] V(q)*y + r == old(V(x)) && r < y
+
+//@ func (x dec) digit(i uint) uint
+//@   pure
+//@   ensures[range] result <= 9
+//@   ensures[value] (i/19 >= len(x) ==> result == 0) && (i/19 < len(x) ==> result == (x[i/19] / p10(i%19)) % 10)
+
+//@ func (x dec) sticky(i uint) uint
+//@   pure
+//@   requires[norm] natnorm(x)
+//@   ensures[range] result <= 1
+//@   ensures[high] i/19 >= len(x) ==> (result == 0 <==> len(x) == 0)
+//@   ensures[low] i/19 < len(x) ==> (result == 0 <==> ((forall k in 0..i/19 :: x[k] == 0) && x[i/19] % p10(i%19) == 0))
+//@   loop 1 invariant[range] -1 <= rangeindex && rangeindex < j && j < len(old(x))
+//@   loop 1 invariant[zero] forall k in 0..rangeindex+1 :: old(x)[k] == 0
